@@ -88,14 +88,16 @@ def _alarm(*a):
     raise Hang()
 
 
-def guarded(f, secs=5):
+def guarded(f, secs=None):
     """-> ("ok", value) | ("err", class name, message)"""
     L = lib()
     old = signal.signal(signal.SIGALRM, _alarm)
-    signal.alarm(secs)
+    from harness import timeouts as _T
+    signal.alarm(secs or _T.limit())
     try:
         return ("ok", f())
     except Hang:
+        _T.saw_hang()
         return ("err", "hang", "")
     except L["JaqalError"] as e:
         return ("err", type(e).__name__, str(e))
@@ -618,7 +620,7 @@ def state_vectors(c):
         res = L["run_jaqal_circuit"](c)
         return [[complex(z) for z in sc.state_vector] for sc in res.subcircuits]
 
-    return guarded(f, secs=20)
+    return guarded(f, secs=None)
 
 
 def model_norm(out):
